@@ -34,7 +34,11 @@ pub fn observed_order(x_unscaled: &[f64]) -> Option<Vec<usize>> {
 fn graph_case(item: u64, rng: &mut Rng, acc: &mut Acc, emax: usize) {
     let mut o = GraphOpts::std(emax);
     o.max_loops = 4;
-    let Some(su) = Setup::random(rng, &o, 2, 4) else {
+    // one item in three: a named topology with EQUAL weights, where many edge probabilities are
+    // simple dyadic numbers (1/2, 1/4) and the f64 cumulative sums are exact, so that the
+    // semantics AT a boundary (u equal to a partial sum) is observable
+    let su = if item % 3 == 0 { symmetric_setup(rng, emax) } else { Setup::random(rng, &o, 2, 4) };
+    let Some(su) = su else {
         acc.count("setup_failed");
         return;
     };
@@ -89,6 +93,35 @@ fn graph_case(item: u64, rng: &mut Rng, acc: &mut Acc, emax: usize) {
             (1.0 - 2f64.powi(-53), "1-2^-53"),
             (1.0 - 2f64.powi(-51), "1-2^-51"),
         ];
+        // replica of the natural f64 evaluation from the table's own numbers; if every partial sum
+        // it produces equals the exact rational one, arithmetic at this subgraph is exact and the
+        // boundary semantics ("reaches u": >=) can be checked without a rounding window
+        let exact_here = {
+            let jg = su.tv.j[gm as usize];
+            let mut cum = 0.0f64;
+            let mut ok = true;
+            for (e, _lo, hi) in iv.iter() {
+                let sub = (gm ^ (1 << e)) as usize;
+                let p = su.tv.j[sub] / jg / su.tv.dod[sub];
+                cum += p;
+                if !(cum.is_finite() && q(cum) == *hi) {
+                    ok = false;
+                    break;
+                }
+            }
+            ok
+        };
+        if exact_here {
+            acc.count("subgraphs_with_exact_f64_partial_sums");
+            for (k, (_e, _lo, hi)) in iv.iter().enumerate() {
+                if k + 1 < iv.len() {
+                    let c = qf(hi);
+                    tests.push((c, "exact_boundary_equal"));
+                    tests.push((next_up(c), "exact_boundary_above"));
+                    tests.push((next_down(c), "exact_boundary_below"));
+                }
+            }
+        }
         for (k, (_e, lo, hi)) in iv.iter().enumerate() {
             let (l, h) = (qf(lo), qf(hi));
             tests.push((l + (h - l) * rng.range(0.3, 0.7), "interior"));
@@ -122,7 +155,7 @@ fn graph_case(item: u64, rng: &mut Rng, acc: &mut Acc, emax: usize) {
                     break;
                 }
                 let dist = qf(&((&uq - hi).abs() / hi));
-                if dist <= 64.0 * EPS {
+                if dist <= 64.0 * EPS && !exact_here {
                     near = true;
                     // the neighbour on the other side of this boundary
                     alt = if k == exp_idx { iv[k + 1].0 } else { iv[k].0 };
@@ -212,6 +245,33 @@ fn graph_case(item: u64, rng: &mut Rng, acc: &mut Acc, emax: usize) {
             }
         }
     }
+}
+
+/// named topology with equal weights (accepted), default externals on the first two vertices
+fn symmetric_setup(rng: &mut Rng, emax: usize) -> Option<Setup> {
+    let all = gen::named_topologies();
+    for _ in 0..40 {
+        let (name, edges) = all[rng.below(all.len())].clone();
+        if edges.len() > emax || edges.len() < 2 {
+            continue;
+        }
+        let vs = gen::vertices_of(&edges);
+        let d = 1 + rng.below(6);
+        let w = *rng.pick(&[0.5, 0.75, 1.0, 1.25, 1.5, 2.0, 3.0]);
+        let massive = rng.chance(0.5);
+        let ext: Vec<u8> = if vs.len() >= 2 && rng.chance(0.8) { vs.iter().copied().take(if rng.chance(0.5) { 2 } else { vs.len().min(3) }).collect() } else { vec![] };
+        let ne = edges.len();
+        let g = crate::run::GraphSpec { edges, weights: vec![w; ne], massive: vec![massive; ne], externals: ext, d };
+        let go = GO::new(&g);
+        let om = go.omega_table();
+        if !go.accepted(&om) || !num::Signed::is_positive(&go.dod()) {
+            continue;
+        }
+        if let Some(su) = Setup::from_graph(rng, g, format!("{}:equal_weights({})", name, w), 0, 0) {
+            return Some(su);
+        }
+    }
+    None
 }
 
 pub fn run(ctx: &Ctx) -> i32 {
